@@ -13,6 +13,7 @@ import ast
 import copy
 import inspect
 import itertools
+import json
 import os
 import random
 
@@ -60,7 +61,7 @@ CHECK_DEADLOCK FALSE
 '''
 INV = {'index': ['IndexOK', 'DevTight', 'MirrorOK', 'KindOK', 'RoundTripOK', 'GrammarOK'],
        'render': ['MirrorOK', 'KindOK', 'RoundTripOK', 'GrammarOK', 'DocOK'],
-       'wrap': ['WrapperOK'],
+       'wrap': ['WrapperOK', 'WrapRoundTripOK'],
        }
 
 
@@ -80,24 +81,6 @@ def tlc_batch(ctx, jobs):
         out = [f.result() for f in futs]
     for (label, _, _), res in zip(jobs, out):
         ctx.add_tlc(res, label)
-    return out
-
-
-def emit_cases(ctx, mode, maxp, maxa, mod, parts):
-    """Cases of the slice seed % mod, emitted by `parts` single-worker TLC runs over a partition."""
-    jobs = []
-    for part in range(parts):
-        cfg = write_cfg(ctx, 'emit_%s_%d.cfg' % (mode, part), mode, maxp, maxa, mod, ctx.seed % mod, True, parts, part)
-        jobs.append(('case emission mode=%s MaxParams=%d MaxArgs=%d slice %d mod %d part %d/%d'
-                     % (mode, maxp, maxa, ctx.seed % mod, mod, part, parts), cfg, 1))
-    seen, out = set(), []
-    for res in tlc_batch(ctx, jobs):
-        for c in cases(res):
-            k = repr(sorted(c.items(), key=lambda kv: kv[0]))
-            if k not in seen:
-                seen.add(k)
-                c['mode'] = mode
-                out.append(c)
     return out
 
 
@@ -810,45 +793,131 @@ def big_case(arg):
 
 
 # ---------------------------------------------------------------- main
+def do_job(arg):
+    """One unit of real-code work (a single forked pool serves all legs)."""
+    kind, payload = arg
+    if kind == 'case':
+        return replay_case(payload)
+    if kind == 'wrap':
+        return wrap_case(payload)
+    if kind == 'doc':
+        return doc_case(payload)
+    return big_case(payload)
+
+
+CODES = {'M': 'Mirror', 'R': 'RoundTrip', 'B': 'Bracket', 'I': 'Index', 'DR': 'DocRaw', 'DF': 'DocFull',
+         'sD': 'shape:dunder-param', 'sV': 'shape:bound-varpositional', 'sS': 'shape:star-after-keyword',
+         'sK': 'shape:kw-duplicates-positional'}
+
+
+def core_out():
+    from harness import core
+    d = os.path.join(core.VERIF, 'out')
+    os.makedirs(d, exist_ok=True)
+    return d
+
+
+def validate_all(ctx, traces, label):
+    """validate_traces + a second pass for traces whose verdict line was lost in TLC's output."""
+    vs = validate_traces('Trace_Signature', 'Trace_Signature.cfg', traces, ctx, label)
+    for attempt in range(2):
+        lost = [i for i, v in enumerate(vs) if not v['accepted'] and v['why'] is None]
+        if not lost:
+            break
+        n0 = ctx.coverage['traces_validated_against_impl']
+        again = validate_traces('Trace_Signature', 'Trace_Signature.cfg', [traces[i] for i in lost], ctx,
+                                label + ' (verdicts re-read)')
+        ctx.coverage['traces_validated_against_impl'] = n0
+        for i, v in zip(lost, again):
+            vs[i] = v
+    lost = [traces[i] for i, v in enumerate(vs) if not v['accepted'] and v['why'] is None]
+    if lost:
+        dump = os.path.join(core_out(), 'c11_lost_traces.json')
+        with open(dump, 'w') as f:
+            json.dump(lost, f)
+        raise MachineryError('trace verdicts are not total: %d traces without verdict, dumped to %s' % (len(lost), dump))
+    for v in vs:
+        if v['why'] is not None:
+            v['why'] = sorted(CODES.get(w, w) for w in v['why'])
+    return vs
+
+
 def run(ctx):
     quick = ctx.quick
     from harness import core
     ctx.coverage['repo'] = core.REPO
 
-    # 1. Design |= Reference, exhaustive in the bounded spaces (three modes, concurrently)
-    #    (in wrap mode MaxArgs bounds the wrapper's own parameters)
-    plan = [('index', 3, 2, 16, 200000), ('render', 3, 0, 2, 3000), ('wrap', 2, 1, 4, 5000)] if quick else \
-           [('index', 4, 3, 16, 3000000), ('render', 4, 0, 2, 30000), ('wrap', 3, 2, 6, 100000)]
-    jobs = []
+    # 1. TLC: Design |= Reference exhaustively in the three modes, and emission of the slices to replay,
+    #    all concurrently (in wrap mode MaxArgs bounds the wrapper's own parameters)
+    plan = [('index', 3, 2, 12, 200000), ('render', 3, 0, 2, 3000), ('wrap', 2, 1, 2, 5000)] if quick else \
+           [('index', 4, 3, 14, 3000000), ('render', 4, 0, 2, 30000), ('wrap', 3, 2, 6, 100000)]
+    emits = [('index', 3, 2, 131, 6, 1500), ('render', 3, 0, 7, 1, 300), ('wrap', 2, 1, 17, 1, 300)] if quick else \
+            [('index', 4, 2, 19, 8, 40000), ('index', 3, 3, 41, 8, 20000), ('render', 4, 0, 3, 2, 3000),
+             ('wrap', 3, 2, 7, 6, 3000)]
+    jobs, roles = [], []
     for mode, maxp, maxa, workers, floor in plan:
         jobs.append(('Design|=Reference exhaustive mode=%s MaxParams=%d MaxArgs=%d' % (mode, maxp, maxa),
                      write_cfg(ctx, 'mc_%s.cfg' % mode, mode, maxp, maxa), workers))
-    ctx.log('TLC exhaustive: %s' % [j[0] for j in jobs])
-    for (mode, maxp, maxa, workers, floor), res in zip(plan, tlc_batch(ctx, jobs)):
-        if res.violated:
-            raise MachineryError('Signature.tla mode=%s: design violates reference beyond the named deviations '
-                                 '(%s); replay the state on the real code, then either name the deviation '
-                                 '(known finding) or correct the model:\n%s' % (mode, res.violated, res.trace[-1:]))
-        if res.distinct < floor:
-            raise MachineryError('vacuity: mode=%s only %d states' % (mode, res.distinct))
-        ctx.log('  mode=%s: %d states, %.0fs' % (mode, res.distinct, res.wall))
+        roles.append(('mc', mode, floor))
+    for n, (mode, maxp, maxa, mod, parts, floor) in enumerate(emits):
+        for part in range(parts):
+            cfg = write_cfg(ctx, 'emit_%d_%d.cfg' % (n, part), mode, maxp, maxa, mod, ctx.seed % mod, True, parts, part)
+            jobs.append(('case emission mode=%s MaxParams=%d MaxArgs=%d slice %d mod %d part %d/%d'
+                         % (mode, maxp, maxa, ctx.seed % mod, mod, part, parts), cfg, 1))
+            roles.append(('emit', n, None))
+    ctx.log('TLC: %d runs (exhaustive %s; emission %s)' % (len(jobs), [p[:3] for p in plan], [e[:5] for e in emits]))
+    results = tlc_batch(ctx, jobs)
+    emitted = [[] for _ in emits]
+    seen = set()
+    for (role, x, floor), res in zip(roles, results):
+        if role == 'mc':
+            if res.violated:
+                raise MachineryError('Signature.tla mode=%s: design violates reference beyond the named deviations '
+                                     '(%s); replay the state on the real code, then either name the deviation '
+                                     '(known finding) or correct the model:\n%s' % (x, res.violated, res.trace[-1:]))
+            if res.distinct < floor:
+                raise MachineryError('vacuity: mode=%s only %d states' % (x, res.distinct))
+            ctx.log('  exhaustive mode=%s: %d states, %.0fs' % (x, res.distinct, res.wall))
+        else:
+            for c in cases(res):
+                k = json.dumps(c, sort_keys=True)
+                if k not in seen:
+                    seen.add(k)
+                    c['mode'] = emits[x][0]
+                    emitted[x].append(c)
     ctx.coverage['exhaustive'] = True
-
-    traces, trace_obs = [], []
-
-    # 2. emitted slices -> replay (spec -> code), index and render mode
-    ref_bad = []
-    for mode, maxp, maxa, mod, parts, floor in ([('index', 3, 2, 67, 7, 3000), ('render', 3, 0, 7, 1, 300)] if quick else
-                                                [('index', 4, 2, 19, 8, 40000), ('index', 3, 3, 41, 8, 20000),
-                                                 ('render', 4, 0, 3, 2, 3000)]):
-        cs = emit_cases(ctx, mode, maxp, maxa, mod, parts)
+    for (mode, maxp, maxa, mod, parts, floor), cs in zip(emits, emitted):
+        ctx.log('  emitted mode=%s %d/%d: %d cases' % (mode, maxp, maxa, len(cs)))
         if len(cs) < floor:
             raise MachineryError('too few cases emitted in mode %s: %d' % (mode, len(cs)))
-        ctx.log('replaying %d TLC cases (mode %s)' % (len(cs), mode))
-        results = jutil.pmap(replay_case, [(c, ctx.seed) for c in cs])
-        jutil.check_worker_errors(results)
-        verdicts = {}
-        for r in results:
+
+    # 2. one pool drives the real code for all legs
+    work = []
+    for (mode, *_), cs in zip(emits, emitted):
+        work += [('wrap' if mode == 'wrap' else 'case', c if mode == 'wrap' else (c, ctx.seed)) for c in cs]
+    ddefs = [[tok('param', 'a'), tok('param', 'b', 0, True)], [],
+             [tok('param', 'a', 0, False, True), tok('*'), tok('param', 'c', 0, True, True), tok('param', 'kw', 2)]]
+    for shape in DOC_SHAPES:
+        for form in ('func', 'method', 'classmethod', 'staticmethod'):
+            for d in ddefs:
+                work.append(('doc', (shape, form, d if form in ('func', 'staticmethod') else [tok('param', 'self')] + d)))
+    cdefs = []
+    for f in jutil.corpus_files(limit=10 if quick else 60, rng=ctx.rng):
+        cdefs += corpus_defns(f)
+    ctx.rng.shuffle(cdefs)
+    cdefs = cdefs[:200 if quick else 2500]
+    work += [('big', (ctx.seed * 1000003 + i, None)) for i in range(400 if quick else 6000)]
+    work += [('big', (ctx.seed * 7919 + i, d)) for i, d in enumerate(cdefs)]
+    ctx.log('driving the real code: %d jobs' % len(work))
+    done = jutil.pmap(do_job, work)
+    jutil.check_worker_errors(done)
+
+    traces, trace_obs, nobs = [], [], 0
+    ref_bad, verdicts = [], {}
+    for (kind, _), r in zip(work, done):
+        if kind == 'case':
+            # spec -> code, index and render mode
+            mode = r['case']['mode']
             if r['ref_mismatch']:
                 ref_bad.append((r['ref_mismatch'], r['obs'][0]['src']))
             for ob in r['obs']:
@@ -857,53 +926,41 @@ def run(ctx):
                 if mode == 'index':
                     v = r['case']['verdict']
                     verdicts[v] = verdicts.get(v, 0) + 1
-                if 'jp' in ob and 'tp' in ob:
+                nobs += 1
+                if 'jp' in ob and 'tp' in ob and (mode != 'index' or nobs % (4 if quick else 2) == 0):
                     traces.append([sig_event(ob)])
                     trace_obs.append(ob)
                 if ok:
                     ctx.sample({'source': ob['src'], 'cursor': ob['pos'], 'reported': ob.get('to_string'),
                                 'index_1based': ob.get('idx'), 'cpython_acceptable': ob['acc'],
                                 'design_index': ob['design'].get('idx')}, limit=4)
-        if mode == 'index':
-            ctx.coverage['design_verdicts_of_replayed_cases'] = verdicts
+        elif kind == 'wrap':
+            judge_wrapper(ctx, r)
+        elif kind == 'doc':
+            if r is None:
+                continue
+            ctx.count('doc_cases')
+            key0 = DOC_KNOWN.get(r['shape'], 'other:doc-' + r['shape'])
+            if 'exc' in r:
+                ctx.violation(key0 + ':crash:' + r['exc'].split('@')[0], 'docstring() raised: %s' % r['exc'], r)
+                continue
+            ev = []
+            for raw, full, sg in ((r['raw'], r['full'], '\n'.join(r['sigs'])), (r['sraw'], r['sfull'], r['ssig'])):
+                ev.append({'k': 'doc', 'raw': jutil.enc(raw), 'exp': jutil.enc(r['exp']), 'full': jutil.enc(full),
+                           'sig': jutil.enc(sg)})
+            traces.append(ev)
+            trace_obs.append(r)
+        else:
+            ctx.count('random_or_corpus_cases')
+            judge(ctx, r)
+            if 'jp' in r and 'tp' in r:
+                traces.append([sig_event(r)])
+                trace_obs.append(r)
+    ctx.coverage['design_verdicts_of_replayed_cases'] = verdicts
     if ref_bad:
         raise MachineryError('Reference disagrees with CPython on %d emitted cases (my reading of Python is '
                              'wrong), e.g. %s' % (len(ref_bad), ref_bad[:2]))
     ctx.coverage['reference_validated_against_cpython'] = True
-
-    # 3. wrappers: **kwargs forwarding (spec -> code), *args forwarding probed
-    cs = emit_cases(ctx, 'wrap', 2 if quick else 3, 1 if quick else 2, 3 if quick else 7, 2 if quick else 6)
-    if len(cs) < 300:
-        raise MachineryError('too few wrapper cases emitted: %d' % len(cs))
-    ctx.log('replaying %d wrapper cases' % len(cs))
-    wres = jutil.pmap(wrap_case, cs)
-    jutil.check_worker_errors(wres)
-    for r in wres:
-        ctx.count('replayed_wrap')
-        case = r['case']
-        rep = {'src': r['src'], 'observed': {k: r.get(k) for k in ('to_string', 'jp', 'exc', 'disagree')},
-               'design': case['reported']}
-        if 'exc' in r:
-            ctx.violation('crash:' + r['exc'], 'get_signatures raised on a **kwargs wrapper', rep)
-            continue
-        if r.get('nsigs') != 1 or 'compile_error' in r:
-            ctx.violation('other:wrapper-no-signature', 'no usable signature for the wrapper', rep)
-            continue
-        shown = [{'name': jutil.dec(p['name']), 'kind': p['kind'], 'def': p['def'], 'ann': p['ann']}
-                 for p in case['reported']]
-        if bool(case['live']) != bool(r['live']) or \
-                (case['live'] and bool(case['disagree']) != bool(r['disagree']) and shown == r['jp']):
-            raise MachineryError('wrapper Reference disagrees with CPython: %s' % rep)
-        if r['live'] and r['disagree']:
-            f = norm_defn(case['defn'])
-            gk = set(jutil.dec(k) for k in case['gkw'])
-            key = 'wrapper-varkw-named-like-given:language' if any(k['stars'] == 2 and k['name'] in gk for k in f) \
-                else 'other:wrapper-language'
-            ctx.violation(key, 'calls that bind against the reported signature %s do not coincide with the calls '
-                          'that run: %s' % (r['to_string'], r['disagree'][:3]), rep)
-        elif shown != r['jp']:
-            ctx.drift({'src': r['src'], 'design': shown, 'code': r['jp']})
-        ctx.sample({'source': r['src'], 'reported': r['to_string'], 'language_disagreements': r['disagree']}, limit=6)
     blocked = 0
     for src in STAR_WRAPPERS:
         lines = src.split('\n')
@@ -912,57 +969,13 @@ def run(ctx):
             blocked += 1
     ctx.coverage['star_forwarding_wrappers_blocked_by_absent_typeshed'] = '%d/%d' % (blocked, len(STAR_WRAPPERS))
 
-    # 4. docstrings: docstring(raw=True) == inspect.getdoc, docstring() = signature line(s) + doc
-    ctx.log('docstrings')
-    djobs = []
-    ddefs = [[tok('param', 'a'), tok('param', 'b', 0, True)], [], [tok('param', 'a', 0, False, True), tok('*'),
-             tok('param', 'c', 0, True, True), tok('param', 'kw', 2)]]
-    for shape in DOC_SHAPES:
-        for form in ('func', 'method', 'classmethod', 'staticmethod'):
-            for d in ddefs:
-                d2 = d if form in ('func', 'staticmethod') else [tok('param', 'self')] + d
-                djobs.append((shape, form, d2))
-    dres = [r for r in jutil.pmap(doc_case, djobs) if r is not None]
-    jutil.check_worker_errors(dres)
-    for r in dres:
-        ctx.count('doc_cases')
-        key0 = DOC_KNOWN.get(r['shape'], 'other:doc-' + r['shape'])
-        if 'exc' in r:
-            ctx.violation(key0 + ':crash:' + r['exc'].split('@')[0], 'docstring() raised: %s' % r['exc'], r)
-            continue
-        ev = []
-        for raw, full, sg in ((r['raw'], r['full'], '\n'.join(r['sigs'])), (r['sraw'], r['sfull'], r['ssig'])):
-            ev.append({'k': 'doc', 'raw': jutil.enc(raw), 'exp': jutil.enc(r['exp']), 'full': jutil.enc(full),
-                       'sig': jutil.enc(sg)})
-        traces.append(ev)
-        trace_obs.append(r)
-
-    # 5. larger random cases and corpus parameter lists (code -> spec)
-    ctx.log('random / corpus cases')
-    nrand = 400 if quick else 6000
-    cdefs = []
-    for f in jutil.corpus_files(limit=10 if quick else 60, rng=ctx.rng):
-        cdefs += corpus_defns(f)
-    ctx.rng.shuffle(cdefs)
-    cdefs = cdefs[:200 if quick else 2500]
-    jobs = [(ctx.seed * 1000003 + i, None) for i in range(nrand)] + \
-           [(ctx.seed * 7919 + i, d) for i, d in enumerate(cdefs)]
-    bres = jutil.pmap(big_case, jobs)
-    jutil.check_worker_errors(bres)
-    for ob in bres:
-        ctx.count('random_or_corpus_cases')
-        judge(ctx, ob)
-        if 'jp' in ob and 'tp' in ob:
-            traces.append([sig_event(ob)])
-            trace_obs.append(ob)
-
-    # 6. TLC judges every recorded observation against the Reference
+    # 3. TLC judges every recorded observation against the Reference (code -> spec)
     ctx.log('validating %d traces' % len(traces))
-    vs = validate_traces('Trace_Signature', 'Trace_Signature.cfg', traces, ctx, 'Trace_Signature')
+    vs = validate_all(ctx, traces, 'Trace_Signature')
     for v, t, ob in zip(vs, traces, trace_obs):
         if v['accepted']:
             continue
-        why = v['why'] or ['?']
+        why = v['why']
         clauses = [w for w in why if not w.startswith('shape:')]
         shapes = [w[6:] for w in why if w.startswith('shape:')]
         if t[0]['k'] == 'doc':
@@ -994,7 +1007,7 @@ def run(ctx):
     b4 = copy.deepcopy(gdoc[0])
     b4[0]['raw'] = b4[0]['raw'][:-1]
     n0 = ctx.coverage['traces_validated_against_impl']
-    bv = validate_traces('Trace_Signature', 'Trace_Signature.cfg', [b1, b2, b3, b4, good[0]], ctx, 'binding self-test')
+    bv = validate_all(ctx, [b1, b2, b3, b4, good[0]], 'binding self-test')
     ctx.coverage['traces_validated_against_impl'] = n0
     if any(v['accepted'] for v in bv[:4]) or not bv[4]['accepted']:
         raise MachineryError('binding self-test failed: %s' % bv)
@@ -1009,3 +1022,37 @@ def run(ctx):
         'default / annotation expressions are literals and builtin names; compared by value with inspect',
         '*args forwarding wrappers cannot be analysed in this tree (typeshed absent) and are not modelled']
     return None
+
+
+def judge_wrapper(ctx, r):
+    ctx.count('replayed_wrap')
+    case = r['case']
+    rep = {'src': r['src'], 'observed': {k: r.get(k) for k in ('to_string', 'jp', 'exc', 'disagree')},
+           'design': case['reported']}
+    if 'exc' in r:
+        ctx.violation('crash:' + r['exc'], 'get_signatures raised on a **kwargs wrapper', rep)
+        return
+    if r.get('nsigs') != 1:
+        ctx.violation('other:wrapper-no-signature', 'no signature for the wrapper', rep)
+        return
+    f = norm_defn(case['defn'])
+    if 'compile_error' in r:
+        own = set(k['name'] for k in norm_defn(case['wdefn']) if k['t'] == 'param')
+        key = 'wrapper-varkw-named-like-own:roundtrip' if any(k['stars'] == 2 and k['name'] in own for k in f) \
+            else 'other:wrapper-roundtrip'
+        ctx.violation(key, 'to_string() %r of the wrapper does not compile: %s' % (r['to_string'], r['compile_error']), rep)
+        return
+    shown = [{'name': jutil.dec(p['name']), 'kind': p['kind'], 'def': p['def'], 'ann': p['ann']}
+             for p in case['reported']]
+    if bool(case['live']) != bool(r['live']) or \
+            (case['live'] and bool(case['disagree']) != bool(r['disagree']) and shown == r['jp']):
+        raise MachineryError('wrapper Reference disagrees with CPython: %s' % rep)
+    if r['live'] and r['disagree']:
+        gk = set(jutil.dec(k) for k in case['gkw'])
+        key = 'wrapper-varkw-named-like-given:language' if any(k['stars'] == 2 and k['name'] in gk for k in f) \
+            else 'other:wrapper-language'
+        ctx.violation(key, 'calls that bind against the reported signature %s do not coincide with the calls '
+                      'that run: %s' % (r['to_string'], r['disagree'][:3]), rep)
+    elif shown != r['jp']:
+        ctx.drift({'src': r['src'], 'design': shown, 'code': r['jp']})
+    ctx.sample({'source': r['src'], 'reported': r['to_string'], 'language_disagreements': r['disagree']}, limit=6)
